@@ -872,22 +872,42 @@ func c02Muts() []c02Mut {
 		}),
 		hdr("Time:1e7", func(s *c02State, h *types.Header, _ *types.Block) bool { h.Time = 10000000; return true }),
 		hdr("SignData:flip", func(s *c02State, h *types.Header, _ *types.Block) bool {
+			if len(h.SignData) != 65 {
+				return false
+			}
+
 			h.SignData = append([]byte(nil), h.SignData...)
 			h.SignData[s.c.Rnd.Intn(64)] ^= 1 << uint(s.c.Rnd.Intn(8))
 			return true
 		}),
 		hdr("SignData:recid", func(s *c02State, h *types.Header, _ *types.Block) bool {
+			if len(h.SignData) != 65 {
+				return false
+			}
+
 			h.SignData = append([]byte(nil), h.SignData...)
 			h.SignData[64] ^= 1
 			return true
 		}),
 		hdr("SignData:bad-recid", func(s *c02State, h *types.Header, _ *types.Block) bool {
+			if len(h.SignData) != 65 {
+				return false
+			}
+
 			h.SignData = append([]byte(nil), h.SignData...)
 			h.SignData[64] = 7
 			return true
 		}),
-		hdr("SignData:malleate", func(s *c02State, h *types.Header, _ *types.Block) bool { h.SignData = malleate(h.SignData); return true }),
-		hdr("SignData:truncate", func(s *c02State, h *types.Header, _ *types.Block) bool { h.SignData = h.SignData[:64]; return true }),
+		hdr("SignData:malleate", func(s *c02State, h *types.Header, _ *types.Block) bool {
+			if len(h.SignData) != 65 {
+				return false
+			}
+ h.SignData = malleate(h.SignData); return true }),
+		hdr("SignData:truncate", func(s *c02State, h *types.Header, _ *types.Block) bool {
+			if len(h.SignData) != 65 {
+				return false
+			}
+ h.SignData = h.SignData[:64]; return true }),
 		hdr("SignData:empty", func(s *c02State, h *types.Header, _ *types.Block) bool { h.SignData = nil; return true }),
 		hdr("SignData:extend", func(s *c02State, h *types.Header, _ *types.Block) bool {
 			h.SignData = append(append([]byte(nil), h.SignData...), 0)
@@ -1235,6 +1255,29 @@ func c02Campaign(c *Ctx) {
 			probe = append(append(types.Transactions{}, probe...), s.chainTxs[len(s.chainTxs)-1])
 		}
 
+		// a block assembled by the MINER path from a tx list that names one tx twice: fully consistent
+		// (roots recomputed by the miner), so only an explicit duplicate check could reject it
+		if len(txs) > 0 && c.Rnd.Intn(6) == 0 {
+			dupList := append(append(types.Transactions{}, txs...), txs[0])
+			if db, _, err := n.Build(parent, t, dupList, nil); err == nil {
+				seen := map[common.Hash]bool{}
+				dup := false
+				for _, tx := range db.Txs {
+					if seen[tx.Hash()] {
+						dup = true
+					}
+					seen[tx.Hash()] = true
+				}
+				if dup {
+					c.Count("miner-built-duplicate-tx")
+					deputynode.SetSelfNodeKey(observer)
+					s.runCase(db, "miner-built-duplicate-tx", false, probe)
+					cases++
+				} else {
+					c.Count("miner-dropped-duplicate-tx")
+				}
+			}
+		}
 		// mutants of this block
 		k := 5 + c.Rnd.Intn(4)
 		for j := 0; j < k && cases < c.N; j++ {
